@@ -32,6 +32,10 @@ type Options struct {
 	WithHashes func(i int, c *cell.Cell) bool // per cell: store hashes/depths in front of the data
 	Order      []*cell.Cell                   // explicit topological order (parents before children); nil = default
 	RootsLast  bool                           // irrelevant when Order is given
+	// Tamper, if set, may change the hash and depth that a with-hashes cell stores for its k-th
+	// significant level (i = position of the cell in the bag). nil = the correct values. The result
+	// is NOT a conforming bag (the strict reader rejects it); for negative inputs only.
+	Tamper func(i int, c *cell.Cell, k int, h *cell.Hash, d *int)
 }
 
 func minBytes(v uint64) int {
@@ -188,13 +192,19 @@ func Write(roots []*cell.Cell, o Options) ([]byte, error) {
 		}
 		data = append(data, d1, c.D2())
 		if wh {
-			for _, l := range c.SignificantLevels() {
-				h := c.HashAt(l)
-				data = append(data, h[:]...)
+			lv := c.SignificantLevels()
+			hs, ds := make([]cell.Hash, len(lv)), make([]int, len(lv))
+			for k, l := range lv {
+				hs[k], ds[k] = c.HashAt(l), c.DepthAt(l)
+				if o.Tamper != nil {
+					o.Tamper(i, c, k, &hs[k], &ds[k])
+				}
 			}
-			for _, l := range c.SignificantLevels() {
-				d := c.DepthAt(l)
-				data = append(data, byte(d>>8), byte(d))
+			for k := range lv {
+				data = append(data, hs[k][:]...)
+			}
+			for k := range lv {
+				data = append(data, byte(ds[k]>>8), byte(ds[k]))
 			}
 		}
 		data = append(data, c.Data()...)
